@@ -336,8 +336,8 @@ def run(ctx):
         "planted-UNSAT relies on vlib.gen_expr.negate being a correct negation (self-tested by C12/C01 enum class)",
     ]
     if ctx.quick():
-        shards = [(ctx.seed * 1000 + i, dict(enum=250, sat_wide=90, unsat_wide=60, history=60))
-                  for i in range(8)]
+        shards = [(ctx.seed * 1000 + i, dict(enum=300, sat_wide=100, unsat_wide=70, history=80))
+                  for i in range(16)]
     else:
         shards = [(ctx.seed * 1000 + i, dict(enum=4000, sat_wide=1200, unsat_wide=800, history=700))
                   for i in range(16)]
